@@ -372,6 +372,16 @@ func inScope(prop string, f *model.Fail, reqs []wire.Req, failAt int) bool {
 				return true
 			}
 		}
+		// an OPEN answered with a size for a path this very connection has removed before: the connection's
+		// read-file state survived what should have replaced it (the truth of OPEN answers in general is
+		// C02's and C06's business, this one is the state machine's)
+		if rule == "open-truth" && op == wire.OpOpen {
+			for j := 0; j < idx; j++ {
+				if reqs[j].Op == wire.OpDelete && bytes.Equal(reqs[j].Path, reqs[idx].Path) {
+					return true
+				}
+			}
+		}
 		return false
 	case "C05":
 		if opIn(op, wire.OpCreate, wire.OpWrite, wire.OpDelete, wire.OpMkdir, wire.OpRmdir) {
